@@ -67,7 +67,7 @@ def run(ctx):
     ]
     ctx.obligations_or_violation()
     quick = ctx.tier == "quick"
-    terms, jsons, err = gl.run_farm(ctx, "c05", n=26 if quick else 600, corpus=True)
+    terms, jsons, err = gl.run_batches(ctx, "c05", 26, 8, 75)
     if err:
         ctx.report({"unchecked": "generator farm run against the current tree", "detail": err},
                    {"kind": "harness"}, failing_input=False)
@@ -80,7 +80,7 @@ def run(ctx):
         return
     for i, code in bad:
         j = jsons[i]
-        if ctx.nreplay < 2 and not gl.known(ctx, features(j)):
+        if ctx.nreplay < 1 and not gl.known(ctx, features(j)):
             j = gl.minimise(ctx, "c05", CASE_TYPE, JUDGE, j, code)
         rep = {"case": gl.slim(j, maxlist=12),
                "definition_file": gl.single_enum_file(j) if "/minimised" not in j["kind"] else j["file"],
